@@ -208,10 +208,13 @@ class Unit:
             if isinstance(unit_expr, bytes):
                 unit_expr = unit_expr.decode("utf-8")
 
-            # this cache substantially speeds up unit conversions
-            if registry and unit_expr in registry._unit_object_cache:
-                return registry._unit_object_cache[unit_expr]
-            unit_cache_key = unit_expr
+            # this cache substantially speeds up unit conversions; it holds
+            # what the registry says about a string, so a unit that is given
+            # explicit values is neither answered from it nor stored in it
+            if base_value is None:
+                if registry and unit_expr in registry._unit_object_cache:
+                    return registry._unit_object_cache[unit_expr]
+                unit_cache_key = unit_expr
             unit_expr = parse_unyt_expr(unit_expr)
         # Make sure we have an Expr at this point.
         if not isinstance(unit_expr, Expr):
